@@ -6,13 +6,11 @@
    * arrays = dtype tag + shape + row-major list of integer values (every generated value is a small
      integer, exactly representable in every dtype used);
    * time labels = integers in units of a fixed dyadic tick (float64 start + t is exact on that grid);
-   * xr.merge of the accumulated dataset with the one-slice dataset of the step = insertion of the
-     slice into a list sorted by label (outer join = sorted union of the indexes); an already present
-     label adds NO slice (identical slice: silently unchanged; different values: MergeError);
-   * the reindexing done by the merge fills with NaN, which promotes integer variables to float
-     (uint8/16 -> float32, uint32/64 -> float64); run_pipeline then casts `image` back to the dtype
-     of the detector's CURRENT image.  The round trip is modelled on values (round to 24 / 53
-     significant bits), because it is NOT the identity for uint64 values above 2^53. *)
+   * the accumulated dataset and the one-slice dataset of the step are CONCATENATED along `time`
+     (xr.concat): the new slice is appended, nothing is aligned, filled or dropped; the `image` variable
+     of the result has one dtype, run_pipeline casts it to the dtype of the detector's CURRENT image;
+   * a read-out (`to_xarray`) either copies the container's buffer or not (table `copies`); a record that was
+     not copied follows the container while it keeps its buffer. *)
 From Coq Require Import ZArith List Bool Ascii String Lia.
 Import ListNotations.
 Open Scope Z_scope.
@@ -44,6 +42,95 @@ Definition bucket_eqb (a b : bucket) : bool :=
 Definition all_buckets : list bucket := [Photon; Charge; Pixel; Signal; Image].
 
 Record arr := { a_dt : dtype; a_shape : list Z; a_vals : list Z }.
+
+(* the six kinds of container contents that have their own read-out code (`to_xarray`): a photon
+   container holds either a 2-D numpy array or a 3-D (wavelength, y, x) DataArray *)
+Inductive ckind := KPhoton2 | KPhoton3 | KCharge | KPixel | KSignal | KImage.
+
+Definition all_kinds : list ckind := [KPhoton2; KPhoton3; KCharge; KPixel; KSignal; KImage].
+
+Definition kind_of (b : bucket) (a : arr) : ckind :=
+  match b with
+  | Photon => if (List.length (a_shape a) =? 3)%nat then KPhoton3 else KPhoton2
+  | Charge => KCharge | Pixel => KPixel | Signal => KSignal | Image => KImage
+  end.
+
+(* does the read-out of a container of this kind COPY the container's buffer?  As coded: ArrayBase.to_xarray
+   and the 2-D branch of Photon.to_xarray build `np.array(self.array, ...)` (a copy), the 3-D branch
+   `self._array.astype(...)` (a copy), Charge.to_xarray `self.array.copy()`. *)
+Definition copies_as_coded (k : ckind) : bool := true.
+
+Definition all_copy (copies : ckind -> bool) : bool := forallb copies all_kinds.
+
+(* ---- the declarative part of the code, regenerated from the source on every run (translator/c03.py ->
+   Gen_C03.v : src_tables, src_shape).  `tables`: what the model is parametrised by, and the theorems are
+   stated about; `shape_facts`: constants of the model that are compared with the source inside Coq. ---- *)
+
+Inductive label_src := LAbsolute | LRelative.    (* detector.absolute_time | detector.time *)
+
+Record tables := {
+  tb_copies : ckind -> bool;                (* to_xarray of each container kind: does it copy the buffer *)
+  tb_label : label_src;                     (* _extract_datatree_2d: which time labels the slice *)
+  tb_exported : list (bucket * bucket);     (* _extract_datatree_2d: variable of the step dataset <- container read *)
+  tb_visible : list (bucket * bucket);      (* Detector.to_xarray (debug capture): variable <- container, in order *)
+  tb_skip_zero : bucket -> bool }.          (* Detector.to_xarray leaves this variable out when it is all zero *)
+
+Definition id_pairs : list (bucket * bucket) := map (fun b => (b, b)) all_buckets.
+
+Definition tables_as_coded : tables :=
+  {| tb_copies := copies_as_coded; tb_label := LAbsolute; tb_exported := id_pairs; tb_visible := id_pairs;
+     tb_skip_zero := fun b => bucket_eqb b Charge |}.
+
+Fixpoint source_of (t : list (bucket * bucket)) (v : bucket) : option bucket :=
+  match t with
+  | [] => None
+  | (v', src) :: t' => if bucket_eqb v v' then Some src else source_of t' v
+  end.
+
+Fixpoint pairs_eqb (a b : list (bucket * bucket)) : bool :=
+  match a, b with
+  | [], [] => true
+  | (x, y) :: a', (x', y') :: b' => bucket_eqb x x' && bucket_eqb y y' && pairs_eqb a' b'
+  | _, _ => false
+  end.
+
+Definition exports_all_b (t : tables) : bool :=
+  forallb (fun v => match source_of (tb_exported t) v with Some src => bucket_eqb src v | None => false end) all_buckets.
+
+Definition visible_std_b (t : tables) : bool :=
+  pairs_eqb (tb_visible t) id_pairs
+  && forallb (fun b => Bool.eqb (tb_skip_zero t b) (bucket_eqb b Charge)) all_buckets.
+
+Definition label_abs_b (t : tables) : bool := match tb_label t with LAbsolute => true | LRelative => false end.
+
+(* everything the theorems of Properties/C03.v ask of the tables *)
+Definition tables_ok (t : tables) : bool :=
+  all_copy (tb_copies t) && label_abs_b t && exports_all_b t && visible_std_b t.
+
+Inductive cast_kind := CastKeep | CastF64.
+Inductive lguard := GAlways | GHier | GFlat | GDebug | GOutputs.
+
+Record shape_facts := {
+  sf_dims : ckind -> list string;           (* to_xarray: dimension names *)
+  sf_origin : ckind -> Z * Z;               (* to_xarray: first row / column index of the y / x coordinates *)
+  sf_cast : ckind -> cast_kind;             (* to_xarray: dtype kept, or converted to float64 (astype(None)) *)
+  sf_time_dim : string;                     (* expand_dims / assign_coords in _extract_datatree_2d *)
+  sf_concat_dim : string;                   (* xr.concat(..., dim=) in run_pipeline *)
+  sf_concat_order : list string;            (* arguments of the concatenation: accumulated result, then the step *)
+  sf_first_step_as_is : bool;               (* `if buckets_data_tree.is_empty: buckets_data_tree = partial` *)
+  sf_step_order : list string;              (* per step: reset, run the models, read out, concatenate *)
+  sf_reset_flag_negated : bool;             (* detector.empty(not detector.non_destructive_readout) *)
+  sf_fix_var : string;                      (* the variable whose dtype is restored ... *)
+  sf_fix_guarded : bool;                    (* ... only when the detector holds an image ... *)
+  sf_fix_target : string;                   (* ... to the dtype of this container *)
+  sf_layout : list (string * lguard);       (* keys of the final DataTree, in insertion order, with their guards *)
+  sf_scene_forces_hier : bool;
+  sf_scene_src : string; sf_data_src : string; sf_inter_src : string;
+  sf_vis_ndim_filter : bool;                (* Detector.to_xarray skips uninitialised containers *)
+  sf_debug_ref_before_model : bool;         (* ModelGroup.run: the reference is taken before model(detector) ... *)
+  sf_debug_ref_deep : bool;                 (* ... as a deep copy *)
+  sf_debug_compare : string;                (* np.allclose *)
+  sf_debug_path : list string }.            (* node path: time_idx_<pipeline_count> / group / model / variable *)
 
 Fixpoint zlist_eqb (a b : list Z) : bool :=
   match a, b with
@@ -95,26 +182,7 @@ Definition extract (s : snapshot) : snapshot :=
   | None => s
   end.
 
-(* ------------------------------------------------------------------ float promotion of the merge *)
-
-(* round a non-negative integer to p significant bits, ties to even (int -> float conversion) *)
-Definition round_bits (p v : Z) : Z :=
-  if v <? 2 ^ p then v
-  else
-    let e := Z.log2 v - (p - 1) in
-    let q := v / 2 ^ e in
-    let r := v mod 2 ^ e in
-    let h := 2 ^ (e - 1) in
-    let q' := if r <? h then q else if h <? r then q + 1 else if Z.even q then q else q + 1 in
-    q' * 2 ^ e.
-
-(* NaN fill of an integer variable: xarray dtypes.maybe_promote *)
-Definition promote (a : arr) : arr :=
-  match a_dt a with
-  | U8 | U16 => {| a_dt := F32; a_shape := a_shape a; a_vals := map (round_bits 24) (a_vals a) |}
-  | U32 | U64 => {| a_dt := F64; a_shape := a_shape a; a_vals := map (round_bits 53) (a_vals a) |}
-  | _ => a
-  end.
+(* ------------------------------------------------------------------ the dtype of the image variable *)
 
 (* DataArray.astype(t); only unsigned targets change values (wrap modulo 2^width, the value of the
    C cast where it is defined) *)
@@ -123,58 +191,38 @@ Definition cast_to (t : dtype) (a : arr) : arr :=
   else {| a_dt := t; a_shape := a_shape a;
           a_vals := if is_unsigned t then map (fun v => v mod 2 ^ width t) (a_vals a) else a_vals a |}.
 
-(* what one merge + "fix the data type of the image" does to the image of a slice already in the
-   result; cur = the image the detector holds now *)
+(* the `image` variable of the concatenated dataset has ONE dtype (numpy's common type of the slices, for
+   unsigned integers the wider one: exact); "fix the data type of the image" then casts it to the dtype of
+   the image the detector holds now.  Both together: every earlier image slice is cast to that dtype.
+   cur = the image the detector holds now; nothing is done when it holds none. *)
 Definition fix_image (cur : option arr) (s : snapshot) : snapshot :=
-  match s_image s with
-  | None => s
-  | Some a =>
-      let p := promote a in
-      set s Image (Some (match cur with Some c => cast_to (a_dt c) p | None => p end))
+  match s_image s, cur with
+  | Some a, Some c => set s Image (Some (cast_to (a_dt c) a))
+  | _, _ => s
   end.
 
-(* --------------------------------------------------------------------------- merge along `time` *)
+(* ----------------------------------------------------------------------- concatenation along `time` *)
 
 Definition slice := (Z * snapshot)%type.
-Definition dataset := list slice.        (* sorted by label *)
-
-(* Some (true, d')  : the label was new, d' has one more slice
-   Some (false, d)  : the label was present with the identical slice: nothing added
-   None             : the label was present with other values: xarray raises MergeError *)
-Fixpoint insert (x : slice) (d : dataset) : option (bool * dataset) :=
-  match d with
-  | [] => Some (true, [x])
-  | y :: d' =>
-      if fst x <? fst y then Some (true, x :: y :: d')
-      else if fst x =? fst y then
-        (if snapshot_eqb (snd x) (snd y) then Some (false, y :: d') else None)
-      else
-        match insert x d' with
-        | None => None
-        | Some (fresh, d'') => Some (fresh, y :: d'')
-        end
-  end.
+Definition dataset := list slice.        (* in readout order *)
 
 Definition fix_all (cur : option arr) (d : dataset) : dataset :=
   map (fun ls => (fst ls, fix_image cur (snd ls))) d.
 
-Definition merge_step (d : dataset) (x : slice) : option dataset :=
-  match insert x d with
-  | None => None
-  | Some (false, _) => Some d
-  | Some (true, d') => Some (fix_all (s_image (snd x)) d')
-  end.
+(* xr.concat([accumulated, step], dim="time") + the dtype restoration *)
+Definition concat_step (d : dataset) (x : slice) : dataset :=
+  fix_all (s_image (snd x)) (d ++ [x]).
 
-Fixpoint assemble_from (d : dataset) (xs : list slice) : option dataset :=
+Fixpoint assemble_from (d : dataset) (xs : list slice) : dataset :=
   match xs with
-  | [] => Some d
-  | x :: xs' => match merge_step d x with None => None | Some d' => assemble_from d' xs' end
+  | [] => d
+  | x :: xs' => assemble_from (concat_step d x) xs'
   end.
 
 (* the first step's dataset is taken as it is (`buckets_data_tree.is_empty`) *)
-Definition assemble (xs : list slice) : option dataset :=
+Definition assemble (xs : list slice) : dataset :=
   match xs with
-  | [] => Some []
+  | [] => []
   | x :: xs' => assemble_from [x] xs'
   end.
 
@@ -200,30 +248,18 @@ Fixpoint cap_lookup (b : bucket) (c : capture) : option arr :=
   | (b', a) :: c' => if bucket_eqb b b' then Some a else cap_lookup b c'
   end.
 
-(* the variables stored in the model's node: those that differ (np.allclose on exact small integers =
-   equality of the values) from the previous capture; the very first capture is compared with zeros *)
-Definition recorded (last : option capture) (ba : bucket * arr) : bool :=
-  match last with
-  | None => negb (all_zero (snd ba))
-  | Some l => match cap_lookup (fst ba) l with
-              | None => true
-              | Some a' => negb (zlist_eqb (a_vals (snd ba)) (a_vals a'))
-              end
+(* the variables stored in the model's node: those of the capture taken after the model that are absent from,
+   or differ (np.allclose on exact small integers = equality of the values) from, the capture taken just
+   before the model *)
+Definition recorded (before : capture) (ba : bucket * arr) : bool :=
+  match cap_lookup (fst ba) before with
+  | None => true
+  | Some a' => negb (zlist_eqb (a_vals (snd ba)) (a_vals a'))
   end.
 
-Definition diff (last : option capture) (cur : capture) : capture := filter (recorded last) cur.
+Definition diff (before : capture) (cur : capture) : capture := filter (recorded before) cur.
 
 Record inode := { n_step : nat; n_group : string; n_name : string; n_vars : capture }.
-
-(* Charge.to_xarray wraps the detector's array WITHOUT copying it (the other containers copy), and
-   Charge.add_charge_array adds in place: a `charge` variable stored in a node keeps following the
-   detector's charge until the next reset replaces the array.  Modelled for programs that only change
-   the charge in place within a step (the only way the probes and pyxel's add_charge_array do). *)
-Definition alias_charge (final : snapshot) (n : inode) : inode :=
-  {| n_step := n_step n; n_group := n_group n; n_name := n_name n;
-     n_vars := map (fun ba => if bucket_eqb (fst ba) Charge
-                              then match get final Charge with Some a => (Charge, a) | None => ba end
-                              else ba) (n_vars n) |}.
 
 (* -------------------------------------------------------------------------------- the exposure *)
 
@@ -233,8 +269,12 @@ Section Exposure.
   Context {Scene Data : Type}.
   Variable empty_scene : Scene.
   Variable scene_is_empty : Scene -> bool.
+  Variable tbl : tables.                  (* the declarative part of the code (tables_as_coded / the regenerated src_tables) *)
 
-  Record det := { d_snap : snapshot; d_scene : Scene; d_data : Data }.
+  (* d_gen b: the identity ("generation") of the buffer that container b holds.  A model that changes a
+     container IN PLACE (`+=`, `[...] =`, Charge.add_charge_array) keeps it; one that assigns a new array
+     (`.array = new`) changes it.  Only equality of the generations of two CONSECUTIVE states is ever used. *)
+  Record det := { d_snap : snapshot; d_gen : bucket -> nat; d_scene : Scene; d_data : Data }.
 
   (* a model function: any transformer of the detector, may depend on the step index *)
   Record mdl := { m_group : string; m_name : string; m_fn : nat -> det -> det }.
@@ -252,11 +292,13 @@ Section Exposure.
     {| a_dt := F64; a_shape := shp; a_vals := repeat 0 (Z.to_nat (fold_right Z.mul 1 shp)) |}.
 
   (* Detector.empty(reset): scene, photon, signal, image emptied, charge zeroed, pixel zeroed iff reset;
-     `data` is left alone *)
+     `data` is left alone.  Zeroing allocates a NEW array (np.zeros / np.zeros_like), emptying drops the
+     buffer: every container but a kept pixel array changes its generation. *)
   Definition reset (shp : list Z) (keep_pixel : bool) (d : det) : det :=
     {| d_snap := {| s_photon := None; s_charge := Some (zeros shp);
                     s_pixel := if keep_pixel then s_pixel (d_snap d) else Some (zeros shp);
                     s_signal := None; s_image := None |};
+       d_gen := fun b => if keep_pixel && bucket_eqb b Pixel then d_gen d b else S (d_gen d b);
        d_scene := empty_scene; d_data := d_data d |}.
 
   Definition view (d : det) : snapshot := extract (d_snap d).
@@ -274,25 +316,94 @@ Section Exposure.
     | S n' => let d' := step_end c i d in d' :: end_states c (S i) n' d'
     end.
 
-  Fixpoint debug_models (i : nat) (ms : list mdl) (d : det) (last : option capture)
-    : list inode * option capture :=
-    match ms with
-    | [] => ([], last)
-    | m :: ms' =>
-        let d' := m_fn m i d in
-        let cur := visible (view d') in
-        let r := debug_models i ms' d' (Some cur) in
-        ({| n_step := i; n_group := m_group m; n_name := m_name m; n_vars := diff last cur |} :: fst r, snd r)
+  (* ---- read-outs that do not copy: the DataArray stored in the result shares the container's buffer and
+     keeps showing what the container holds for as long as the container keeps that buffer ---- *)
+  Fixpoint follow (b : bucket) (g : nat) (cur : arr) (tr : list det) : arr :=
+    match tr with
+    | [] => cur
+    | d :: tr' =>
+        match get (view d) b with
+        | Some a' => if Nat.eqb (d_gen d b) g then follow b g a' tr' else cur
+        | None => cur
+        end
     end.
 
-  Fixpoint debug_steps (c : config) (i n : nat) (d : det) (last : option capture) : list inode :=
+  (* an array read out of container src in state d, seen after the detector went through the states `later` *)
+  Definition settle_arr (d : det) (later : list det) (src : bucket) (a : arr) : arr :=
+    if tb_copies tbl (kind_of src a) then a else follow src (d_gen d src) a later.
+
+  Definition build_snapshot (f : bucket -> option arr) : snapshot :=
+    {| s_photon := f Photon; s_charge := f Charge; s_pixel := f Pixel; s_signal := f Signal; s_image := f Image |}.
+
+  (* _extract_datatree_2d: the variables of the step dataset, each read out of its container *)
+  Definition export (s : snapshot) : snapshot :=
+    build_snapshot (fun v => match source_of (tb_exported tbl) v with Some src => get s src | None => None end).
+
+  Definition settle_export (d : det) (later : list det) (s : snapshot) : snapshot :=
+    build_snapshot (fun v => match source_of (tb_exported tbl) v with
+                             | Some src => option_map (settle_arr d later src) (get s src)
+                             | None => None
+                             end).
+
+  (* Detector.to_xarray: the initialised containers of the table; a skip-zero variable is left out when all zero *)
+  Definition visible_t (s : snapshot) : capture :=
+    flat_map (fun vs => match get s (snd vs) with
+                        | None => []
+                        | Some a => if tb_skip_zero tbl (fst vs) && all_zero a then [] else [(fst vs, a)]
+                        end) (tb_visible tbl).
+
+  (* a variable of a debug node, read out of state d *)
+  Definition settle (d : det) (later : list det) (ba : bucket * arr) : bucket * arr :=
+    match source_of (tb_visible tbl) (fst ba) with
+    | Some src => (fst ba, settle_arr d later src (snd ba))
+    | None => ba
+    end.
+
+  Fixpoint model_states (i : nat) (ms : list mdl) (d : det) : list det :=
+    match ms with
+    | [] => []
+    | m :: ms' => let d' := m_fn m i d in d' :: model_states i ms' d'
+    end.
+
+  (* every state the detector goes through from step i on: after the reset, after each model *)
+  Fixpoint trace (c : config) (i n : nat) (d : det) : list det :=
     match n with
     | O => []
     | S n' =>
         let d0 := reset (c_shape c) (c_nondestr c) d in
-        let r := debug_models i (c_models c) d0 last in
+        d0 :: model_states i (c_models c) d0 ++ trace c (S i) n' (run_models i (c_models c) d0)
+    end.
+
+  (* ModelGroup.run with debug: a deep copy of Detector.to_xarray() is taken just before the model, the
+     detector is read out again just after it, and the variables that differ are stored in the model's node *)
+  Fixpoint debug_models (i : nat) (ms : list mdl) (d : det) : list inode :=
+    match ms with
+    | [] => []
+    | m :: ms' =>
+        let before := visible_t (view d) in
+        let d' := m_fn m i d in
+        let cur := visible_t (view d') in
+        {| n_step := i; n_group := m_group m; n_name := m_name m; n_vars := diff before cur |}
+          :: debug_models i ms' d'
+    end.
+
+  (* the k-th node was read out of the k-th state; it is looked at when the run is over *)
+  Fixpoint settle_nodes (ns : list inode) (sts : list det) (later : list det) : list inode :=
+    match ns, sts with
+    | n :: ns', d :: sts' =>
+        {| n_step := n_step n; n_group := n_group n; n_name := n_name n;
+           n_vars := map (settle d (sts' ++ later)) (n_vars n) |} :: settle_nodes ns' sts' later
+    | _, _ => []
+    end.
+
+  Fixpoint debug_steps (c : config) (i n : nat) (d : det) : list inode :=
+    match n with
+    | O => []
+    | S n' =>
+        let d0 := reset (c_shape c) (c_nondestr c) d in
         let dend := run_models i (c_models c) d0 in
-        map (alias_charge (view dend)) (fst r) ++ debug_steps c (S i) n' dend (snd r)
+        settle_nodes (debug_models i (c_models c) d0) (model_states i (c_models c) d0) (trace c (S i) n' dend)
+          ++ debug_steps c (S i) n' dend
     end.
 
   Record tree := {
@@ -314,24 +425,38 @@ Section Exposure.
     (match l with Flat => [] | Hier => ["bucket"%string] end)
        ++ (if debug then ["intermediate"%string] else []) ++ ["scene"%string; "data"%string].
 
-  Definition labels (c : config) : list Z := map (Z.add (c_start c)) (c_times c).
+  Definition labels (c : config) : list Z :=
+    match tb_label tbl with
+    | LAbsolute => map (Z.add (c_start c)) (c_times c)
+    | LRelative => c_times c
+    end.
 
-  Definition exposure (c : config) (d_init : det) : option tree :=
+  (* what the result holds of each step: the read-out of the detector at the end of the step.  The first
+     step's dataset is kept AS IT IS until the concatenation at the end of the second step (which allocates
+     new arrays), so a read-out that does not copy still shares the detector's buffer while the second step runs. *)
+  Definition views (c : config) (ends : list det) : list snapshot :=
+    match ends with
+    | [] => []
+    | e0 :: rest =>
+        let later := match rest with
+                     | [] => []
+                     | _ :: _ => let d1 := reset (c_shape c) (c_nondestr c) e0 in d1 :: model_states 1 (c_models c) d1
+                     end in
+        settle_export e0 later (view e0) :: map (fun d => export (view d)) rest
+    end.
+
+  Definition exposure (c : config) (d_init : det) : tree :=
     let d0 := reset (c_shape c) false d_init in
     let n := List.length (c_times c) in
     let ends := end_states c 0 n d0 in
-    match assemble (combine (labels c) (map view ends)) with
-    | None => None
-    | Some ds =>
-        let final := last ends d0 in
-        let l := effective_layout (c_layout c) (d_scene final) in
-        Some {| t_bucket_path := bucket_path l;
-                t_children := children l (c_debug c);
-                t_buckets := ds;
-                t_inter := if c_debug c then Some (debug_steps c 0 n d0 None) else None;
-                t_scene := d_scene final;
-                t_data := d_data final |}
-    end.
+    let final := last ends d0 in
+    let l := effective_layout (c_layout c) (d_scene final) in
+    {| t_bucket_path := bucket_path l;
+       t_children := children l (c_debug c);
+       t_buckets := assemble (combine (labels c) (views c ends));
+       t_inter := if c_debug c then Some (debug_steps c 0 n d0) else None;
+       t_scene := d_scene final;
+       t_data := d_data final |}.
 
   (* the result with the debug nodes removed *)
   Definition strip_debug (t : tree) : tree :=
@@ -360,7 +485,7 @@ Section DebugSpec.
   Variable empty_scene : Scene.
 
   Definition changed_by (before after : snapshot) : capture :=
-    diff (Some (visible before)) (visible after).
+    diff (visible before) (visible after).
 
   Fixpoint ideal_models (i : nat) (ms : list (mdl Scene Data)) (d : det Scene Data) : list inode :=
     match ms with
@@ -382,20 +507,14 @@ End DebugSpec.
 
 (* ------------------------------------------------------------------------ hypotheses of C03_slices *)
 
-(* the image round trip of the merge leaves every recorded image as it was *)
+(* the dtype restoration leaves every recorded image as it was *)
 Definition image_stable (snaps : list snapshot) : Prop :=
   forall s s', In s snaps -> In s' snaps -> fix_image (s_image s') s = s.
 
-(* the bit budget under which an unsigned value survives promote + cast back *)
-Definition exact_bits (t : dtype) : Z :=
-  match t with U8 => 8 | U16 => 16 | U32 => 32 | U64 => 53 | _ => 0 end.
-
-(* image initialised in no step, or in every step with one unsigned dtype and values that fit *)
+(* image initialised in no step, or in every step with one dtype (any values) *)
 Definition image_uniform (snaps : list snapshot) : Prop :=
   (forall s, In s snaps -> s_image s = None) \/
-  (exists t, is_unsigned t = true /\
-     forall s, In s snaps -> exists a, s_image s = Some a /\ a_dt a = t /\
-       forall v, In v (a_vals a) -> 0 <= v < 2 ^ exact_bits t).
+  (exists t, forall s, In s snaps -> exists a, s_image s = Some a /\ a_dt a = t).
 
 (* ===================================================================== correspondence case files *)
 
@@ -403,10 +522,17 @@ Definition image_uniform (snaps : list snapshot) : Prop :=
 
 Definition payload := list (string * list Z).      (* scene / data nodes: path -> values *)
 
+(* WAssign: a new array replaces the container's (`.array = new`, `.array_3d = new`; charge: `empty()` then
+   `add_charge_array`).  WIAdd: added to the container's buffer in place (`+=`, Charge.add_charge_array).
+   WISet: the buffer is overwritten in place (`.array[...] = new`).  On an uninitialised container the two
+   in-place modes can only initialise it (a new buffer). *)
+Inductive wmode := WAssign | WIAdd | WISet.
+
 Record write := {
   w_bucket : bucket;
   w_dt : dtype;
   w_waves : Z;                   (* photon only: 0 = 2-D array, k >= 1 = 3-D with k wavelengths *)
+  w_mode : wmode;
   w_per_step : list Z }.         (* base value at step i; the array is base + 0, base + 1, ... *)
 
 Inductive action :=
@@ -422,17 +548,25 @@ Definition nelems (shp : list Z) : nat := Z.to_nat (fold_right Z.mul 1 shp).
 
 Definition add_lists (a b : list Z) : list Z := map (fun p => fst p + snd p) (combine a b).
 
-Definition apply_write (shp : list Z) (i : nat) (w : write) (s : snapshot) : snapshot :=
+(* -> the containers after the write, and whether the written container got a NEW buffer *)
+Definition apply_write (shp : list Z) (i : nat) (w : write) (s : snapshot) : snapshot * bool :=
   let v := nth i (w_per_step w) 0 in
-  match w_bucket w with
-  | Photon =>
-      let shp' := if w_waves w =? 0 then shp else w_waves w :: shp in
-      set s Photon (Some {| a_dt := w_dt w; a_shape := shp'; a_vals := iota v (nelems shp') |})
-  | Charge =>
-      (* Charge.add_charge_array: added to the (zeroed) array, always float64 *)
-      let old := match s_charge s with Some a => a_vals a | None => repeat 0 (nelems shp) end in
-      set s Charge (Some {| a_dt := F64; a_shape := shp; a_vals := add_lists old (iota v (nelems shp)) |})
-  | b => set s b (Some {| a_dt := w_dt w; a_shape := shp; a_vals := iota v (nelems shp) |})
+  let b := w_bucket w in
+  let shp' := match b with
+              | Photon => if w_waves w =? 0 then shp else w_waves w :: shp
+              | _ => shp
+              end in
+  let dt := match b with Charge => F64 | _ => w_dt w end in
+  let fresh := {| a_dt := dt; a_shape := shp'; a_vals := iota v (nelems shp') |} in
+  if v <? 0 then (s, false)        (* a negative entry: the writer does nothing at this step *)
+  else
+  match w_mode w, get s b with
+  | WAssign, _ | _, None => (set s b (Some fresh), true)
+  | WIAdd, Some old =>
+      (set s b (Some {| a_dt := a_dt old; a_shape := a_shape old;
+                        a_vals := add_lists (a_vals old) (a_vals fresh) |}), false)
+  | WISet, Some old =>
+      (set s b (Some {| a_dt := a_dt old; a_shape := a_shape old; a_vals := a_vals fresh |}), false)
   end.
 
 Fixpoint pl_set (k : string) (v : list Z) (p : payload) : payload :=
@@ -446,9 +580,13 @@ Definition pmdl := mdl payload payload.
 
 Definition apply_action (shp : list Z) (a : action) (i : nat) (d : pdet) : pdet :=
   match a with
-  | AWrite w => {| d_snap := apply_write shp i w (d_snap d); d_scene := d_scene d; d_data := d_data d |}
-  | AData k vs => {| d_snap := d_snap d; d_scene := d_scene d; d_data := pl_set k [nth i vs 0] (d_data d) |}
-  | AScene k vs => {| d_snap := d_snap d; d_scene := pl_set k [nth i vs 0] (d_scene d); d_data := d_data d |}
+  | AWrite w =>
+      let r := apply_write shp i w (d_snap d) in
+      {| d_snap := fst r;
+         d_gen := fun b => if snd r && bucket_eqb b (w_bucket w) then S (d_gen d b) else d_gen d b;
+         d_scene := d_scene d; d_data := d_data d |}
+  | AData k vs => {| d_snap := d_snap d; d_gen := d_gen d; d_scene := d_scene d; d_data := pl_set k [nth i vs 0] (d_data d) |}
+  | AScene k vs => {| d_snap := d_snap d; d_gen := d_gen d; d_scene := pl_set k [nth i vs 0] (d_scene d); d_data := d_data d |}
   | ANop => d
   end.
 
@@ -476,7 +614,7 @@ Definition payload_is_empty (p : payload) : bool := negb (existsb (fun kv => is_
 Definition blank : snapshot :=
   {| s_photon := None; s_charge := None; s_pixel := None; s_signal := None; s_image := None |}.
 
-Definition pdet0 : pdet := {| d_snap := blank; d_scene := []; d_data := [] |}.
+Definition pdet0 : pdet := {| d_snap := blank; d_gen := fun _ => O; d_scene := []; d_data := [] |}.
 
 (* ---- what the driver observed ---- *)
 
@@ -533,25 +671,40 @@ Definition expected_dims (a : arr) : list string :=
   then ["time"%string; "wavelength"%string; "y"%string; "x"%string]
   else ["time"%string; "y"%string; "x"%string].
 
-(* does the observed variable of bucket b consist of exactly the given slices (in order)? *)
+(* the driver reports NaN (and any value that is not an integer) as this number *)
+Definition nan_mark : Z := -777777.
+
+Definition is_none {A} (o : option A) : bool := match o with None => true | Some _ => false end.
+
+Fixpoint first_some {A} (l : list (option A)) : option A :=
+  match l with
+  | [] => None
+  | Some a :: _ => Some a
+  | None :: l' => first_some l'
+  end.
+
+(* does the observed variable of bucket b consist of exactly the given slices (in order)?  A step at which the
+   container was not initialised gives an all-NaN slice (and makes the variable float64: xr.concat broadcasts
+   the NaN scalar of that step against the arrays of the others). *)
 Definition var_matches (exact : bool) (n : nat) (b : bucket) (sl : list (option arr)) (vs : list ovar) : bool :=
   match find_var b vs with
   | None => false
   | Some v =>
-      match sl with
-      | [] => false
-      | None :: _ =>
+      match first_some sl with
+      | None =>
           (* never initialised: NaN along time only *)
-          forallb (fun o => match o with None => true | Some _ => false end) sl
+          negb (Nat.eqb (List.length sl) 0)
           && string_list_eqb (ov_dims v) ["time"%string] && zlist_eqb (ov_shape v) [Z.of_nat n]
-      | Some a0 :: _ =>
+          && match ov_vals v with [] => true | _ => false end      (* the driver: [] = all NaN *)
+      | Some a0 =>
           let k := List.length (a_vals a0) in
+          let mixed := existsb is_none sl in
           string_list_eqb (ov_dims v) (expected_dims a0)
           && zlist_eqb (ov_shape v) (Z.of_nat n :: a_shape a0)
           && (List.length (ov_vals v) =? n * k)%nat
           && forallb (fun p => match fst p with
-                               | None => false
-                               | Some a => (negb exact || dtype_eqb (a_dt a) (ov_dt v))
+                               | None => forallb (Z.eqb nan_mark) (snd p)
+                               | Some a => (negb exact || dtype_eqb (if mixed then F64 else a_dt a) (ov_dt v))
                                            && (negb (bucket_eqb b Image) || dtype_eqb (a_dt a) (ov_dt v))
                                            && zlist_eqb (a_shape a) (a_shape a0)
                                            && zlist_eqb (a_vals a) (snd p)
@@ -561,10 +714,10 @@ Definition var_matches (exact : bool) (n : nat) (b : bucket) (sl : list (option 
 
 Definition range0 (n : Z) : list Z := iota 0 (Z.to_nat n).
 
-(* buckets initialised in every step or in none: the ones the property speaks about *)
-Definition judged (sl : list (option arr)) : bool :=
-  forallb (fun o => match o with None => true | Some _ => false end) sl
-  || forallb (fun o => match o with None => false | Some _ => true end) sl.
+(* what is judged: every bucket initialised in every step or in none, and the float buckets initialised in some
+   steps only (an integer image that is missing at some step goes through NaN and a cast: not judged) *)
+Definition judged (b : bucket) (sl : list (option arr)) : bool :=
+  forallb is_none sl || forallb (fun o => negb (is_none o)) sl || negb (bucket_eqb b Image).
 
 Definition dataset_matches (exact : bool) (rows cols : Z) (ds : dataset) (o : otree) : bool :=
   let n := List.length ds in
@@ -572,7 +725,7 @@ Definition dataset_matches (exact : bool) (rows cols : Z) (ds : dataset) (o : ot
   && zlist_eqb (o_y o) (range0 rows) && zlist_eqb (o_x o) (range0 cols)
   && (List.length (o_vars o) =? 5)%nat
   && forallb (fun b => let sl := map (fun ls => get (snd ls) b) ds in
-                       negb (judged sl) || var_matches exact n b sl (o_vars o)) all_buckets.
+                       negb (judged b sl) || var_matches exact n b sl (o_vars o)) all_buckets.
 
 Fixpoint capture_eqb (a b : capture) : bool :=
   match a, b with
@@ -611,6 +764,84 @@ Fixpoint ovars_eqb (a b : list ovar) : bool :=
   | _, _ => false
   end.
 
+(* ---- the constants of the model that are compared with the source (Gen_C03.src_shape) ---- *)
+
+Definition shape_as_modelled : shape_facts :=
+  {| sf_dims := fun k => match k with
+                         | KPhoton3 => ["wavelength"%string; "y"%string; "x"%string]
+                         | _ => ["y"%string; "x"%string]
+                         end;
+     sf_origin := fun _ => (0, 0);
+     sf_cast := fun k => match k with KPhoton3 => CastF64 | _ => CastKeep end;
+     sf_time_dim := "time"; sf_concat_dim := "time";
+     sf_concat_order := ["accumulated"%string; "step"%string];
+     sf_first_step_as_is := true;
+     sf_step_order := ["reset"%string; "run"%string; "extract"%string; "concat"%string];
+     sf_reset_flag_negated := true;
+     sf_fix_var := "image"; sf_fix_guarded := true; sf_fix_target := "image";
+     sf_layout := [("/bucket"%string, GHier); ("/"%string, GFlat); ("/intermediate"%string, GDebug);
+                   ("/output"%string, GOutputs); ("/scene"%string, GAlways); ("/data"%string, GAlways)];
+     sf_scene_forces_hier := true;
+     sf_scene_src := "detector.scene.data"; sf_data_src := "detector.data"; sf_inter_src := "detector.intermediate";
+     sf_vis_ndim_filter := true;
+     sf_debug_ref_before_model := true; sf_debug_ref_deep := true; sf_debug_compare := "allclose";
+     sf_debug_path := ["time_idx"%string; "group"%string; "model"%string; "name"%string] |}.
+
+Definition cast_eqb (a b : cast_kind) : bool :=
+  match a, b with CastKeep, CastKeep | CastF64, CastF64 => true | _, _ => false end.
+
+Definition lguard_eqb (a b : lguard) : bool :=
+  match a, b with
+  | GAlways, GAlways | GHier, GHier | GFlat, GFlat | GDebug, GDebug | GOutputs, GOutputs => true
+  | _, _ => false
+  end.
+
+Fixpoint layout_eqb (a b : list (string * lguard)) : bool :=
+  match a, b with
+  | [], [] => true
+  | (k, g) :: a', (k', g') :: b' => String.eqb k k' && lguard_eqb g g' && layout_eqb a' b'
+  | _, _ => false
+  end.
+
+Definition shape_eqb (a b : shape_facts) : bool :=
+  forallb (fun k => string_list_eqb (sf_dims a k) (sf_dims b k)
+                    && (fst (sf_origin a k) =? fst (sf_origin b k)) && (snd (sf_origin a k) =? snd (sf_origin b k))
+                    && cast_eqb (sf_cast a k) (sf_cast b k)) all_kinds
+  && String.eqb (sf_time_dim a) (sf_time_dim b) && String.eqb (sf_concat_dim a) (sf_concat_dim b)
+  && string_list_eqb (sf_concat_order a) (sf_concat_order b)
+  && Bool.eqb (sf_first_step_as_is a) (sf_first_step_as_is b)
+  && string_list_eqb (sf_step_order a) (sf_step_order b)
+  && Bool.eqb (sf_reset_flag_negated a) (sf_reset_flag_negated b)
+  && String.eqb (sf_fix_var a) (sf_fix_var b) && Bool.eqb (sf_fix_guarded a) (sf_fix_guarded b)
+  && String.eqb (sf_fix_target a) (sf_fix_target b)
+  && layout_eqb (sf_layout a) (sf_layout b)
+  && Bool.eqb (sf_scene_forces_hier a) (sf_scene_forces_hier b)
+  && String.eqb (sf_scene_src a) (sf_scene_src b) && String.eqb (sf_data_src a) (sf_data_src b)
+  && String.eqb (sf_inter_src a) (sf_inter_src b)
+  && Bool.eqb (sf_vis_ndim_filter a) (sf_vis_ndim_filter b)
+  && Bool.eqb (sf_debug_ref_before_model a) (sf_debug_ref_before_model b)
+  && String.eqb (sf_debug_compare a) (sf_debug_compare b)
+  && string_list_eqb (sf_debug_path a) (sf_debug_path b).
+
+(* the keys of the final DataTree that the layout table gives for a run (outputs are never saved by the model) *)
+Definition layout_keys (sf : shape_facts) (l : layout) (debug : bool) : list string :=
+  map fst (filter (fun kg => match snd kg with
+                             | GAlways => true
+                             | GHier => match l with Hier => true | Flat => false end
+                             | GFlat => match l with Flat => true | Hier => false end
+                             | GDebug => debug
+                             | GOutputs => false
+                             end) (sf_layout sf)).
+
+Definition strip_slash (s : string) : string :=
+  match s with String c r => if Ascii.eqb c "/"%char then r else s | EmptyString => s end.
+
+(* bucket node path, children of the root *)
+Definition layout_view (sf : shape_facts) (l : layout) (debug : bool) : string * list string :=
+  let ks := layout_keys sf l debug in
+  (match l with Flat => "/"%string | Hier => "/bucket"%string end,
+   map strip_slash (filter (fun k => negb (String.eqb k "/")) ks)).
+
 (* ---- the model's prediction for a case ---- *)
 
 Definition config_of (k : case) : config payload payload :=
@@ -618,8 +849,8 @@ Definition config_of (k : case) : config payload payload :=
      c_nondestr := k_nondestr k; c_layout := if k_hier k then Hier else Flat; c_debug := k_debug k;
      c_models := map (mdl_of [k_rows k; k_cols k]) (k_models k) |}.
 
-Definition model_tree (k : case) : option (tree payload payload) :=
-  exposure [] payload_is_empty (config_of k) pdet0.
+Definition model_tree (tbl : tables) (k : case) : option (tree payload payload) :=
+  Some (exposure [] payload_is_empty tbl (config_of k) pdet0).
 
 Definition tree_matches (k : case) (t : tree payload payload) (o : otree) : bool :=
   String.eqb (t_bucket_path t) (o_bucket_path o)
@@ -633,8 +864,8 @@ Definition tree_matches (k : case) (t : tree payload payload) (o : otree) : bool
   && payload_eqb (t_scene t) (o_scene o) && payload_eqb (t_data t) (o_data o).
 
 (* model <> implementation *)
-Definition case_mismatch (k : case) : bool :=
-  match model_tree k, k_result k with
+Definition case_mismatch (tbl : tables) (k : case) : bool :=
+  match model_tree tbl k, k_result k with
   | None, None => false
   | Some t, Some o => negb (tree_matches k t o)
   | _, _ => true
@@ -715,7 +946,7 @@ Fixpoint indices_where {A} (f : A -> bool) (l : list A) (i : Z) : list Z :=
   | x :: l' => (if f x then [i] else []) ++ indices_where f l' (i + 1)
   end.
 
-Definition mismatches (cs : list case) : list Z := indices_where case_mismatch cs 0.
+Definition mismatches (tbl : tables) (cs : list case) : list Z := indices_where (case_mismatch tbl) cs 0.
 
 (* violations: flat list of  index * 10 + clause *)
 Fixpoint violations_from (cs : list case) (i : Z) : list Z :=
